@@ -237,3 +237,29 @@ class Orbit:
         if not d[i] <= tol * scale:
             return None, float(d[i])
         return self._ks[i], float(d[i])
+
+
+class BoundaryIntegrator:
+    """Real integrator whose steps fail (with a real mici IntegratorError subclass) whenever
+    the step starts or ends beyond orbit index k_b.  The failure is a deterministic,
+    direction-symmetric function of the unordered pair of states {from, to}, so every
+    trajectory-based transition must still leave exp(-H) exactly invariant: a trajectory
+    and its reverse fail at the same places."""
+
+    def __init__(self, inner, orbit, k_b, error_cls, tol):
+        d = self.__dict__
+        d["_inner"], d["_orbit"], d["_kb"], d["_err"], d["_tol"] = inner, orbit, k_b, error_cls, tol
+
+    def __getattr__(self, name):
+        return getattr(self.__dict__["_inner"], name)
+
+    def __setattr__(self, name, value):
+        setattr(self.__dict__["_inner"], name, value)
+
+    def step(self, state):
+        out = self._inner.step(state)
+        i, _ = self._orbit.index_of(state, self._tol)
+        j, _ = self._orbit.index_of(out, self._tol)
+        if i is None or j is None or max(i, j) > self._kb:
+            raise self._err("injected: step crosses the orbit boundary")
+        return out
